@@ -470,7 +470,128 @@ def mut_parity_row(repo: Repo) -> List[Mutant]:
     return [Mutant("rows-in-table-order", ov, "fire", "parity-row", control=True)] if ov else []
 
 
+# ------------------------------------------------------------------ exponent vectors are used as they come out of the lattice
+def rule_row_intact(repo: Repo) -> List[Ob]:
+    """LatticeIdeal.compute_basis turns every vector v of the lattice basis into the binomial prod b_i**v_i - 1.  A vector scaled down
+    (v / gcd) is a different statement: (-1)**2 = 1 does not give (-1)**1 = 1.  The vectors are rescaled nowhere between the lattice and
+    the binomial."""
+    f = repo.function("invariants/lattice_ideal.py", "LatticeIdeal.compute_basis")
+    key = "invariants/lattice_ideal.py::LatticeIdeal.compute_basis::rows-unscaled"
+    from ..shape import expanded
+    fx = expanded(repo, f, keep=("get_inverse_symbol",))
+    loops = [l for l in walk_no_nested(fx) if isinstance(l, ast.For) and "lattice_basis" in src(l.iter) and isinstance(l.target, ast.Name)]
+    if not loops:
+        return [inconclusive("F-lattice-rows", key, f.relpath, f.node.lineno, f.qualname, "loop over the lattice basis not recognised")]
+    loop = loops[0]
+    row = loop.target.id
+    scaled = []
+    for st in ast.walk(loop):
+        if isinstance(st, (ast.Assign, ast.AugAssign)):
+            tgts = st.targets if isinstance(st, ast.Assign) else [st.target]
+            if any(isinstance(t, ast.Name) and t.id == row for t in tgts):
+                if any(isinstance(x, ast.BinOp) and isinstance(x.op, (ast.FloorDiv, ast.Div, ast.Mod, ast.Mult)) for x in ast.walk(st.value)) or \
+                        any(isinstance(x, ast.Call) and call_name(x) in ("gcd", "igcd", "primitive", "content") for x in ast.walk(st.value)):
+                    scaled.append(st)
+    if scaled:
+        return [Ob("F-lattice-rows", key, f.relpath, scaled[0].lineno, f.qualname, False,
+                   f"`{src(scaled[0])[:70]}` rescales a lattice vector before the binomial is formed: for a negative or complex base a multiple k*v can be a relation although v is not "
+                   "((-1)**2 = 1, (-2)**2 = 2**2): the binomial of v/k is reported as an invariant and is false")]
+    return [Ob("F-lattice-rows", key, f.relpath, loop.lineno, f.qualname, True, "every vector of the lattice basis becomes a binomial with exactly its own exponents")]
+
+
+def mut_row_intact(repo: Repo) -> List[Mutant]:
+    def tr(tree):
+        fn = find_def(tree, "LatticeIdeal.compute_basis")
+        for n in ast.walk(fn):
+            if isinstance(n, ast.For) and "lattice_basis" in src(n.iter):
+                n.body[0:0] = ast.parse("d = gcd(*row)\nif d > 1:\n    row = [p // d for p in row]").body
+                return True
+        return False
+    ov = mutate_module(repo, "invariants/lattice_ideal.py", tr)
+    return [Mutant("rows-divided-by-their-gcd", ov, "fire", "rows-unscaled", control=True)] if ov else []
+
+
+# ------------------------------------------------------------------ base**(C*n) is read as (base**C)**n
+def rule_exp_split(repo: Repo) -> List[Ob]:
+    f = repo.function("invariants/invariant_ideal.py", "InvariantIdeal.abstract_exponentials")
+    key = "invariants/invariant_ideal.py::InvariantIdeal.abstract_exponentials::constant-into-base"
+    selfn = f.params()[0]
+    arms = []
+    for iff in [n for n in walk_no_nested(f.node) if isinstance(n, ast.If)]:
+        t = iff.test
+        if isinstance(t, ast.Compare) and len(t.ops) == 1 and isinstance(t.ops[0], ast.Eq):
+            sides = [t.left, t.comparators[0]]
+            nside = [x for x in sides if is_self_attr(x, "n", selfn)]
+            fac = [x for x in sides if isinstance(x, ast.Name)]
+            if len(nside) == 1 and len(fac) == 1:
+                for st in iff.body:
+                    if isinstance(st, ast.Assign) and isinstance(st.value, ast.BinOp) and isinstance(st.value.op, ast.Pow) and isinstance(st.targets[0], ast.Name) \
+                            and isinstance(st.value.left, ast.Name) and st.value.left.id == st.targets[0].id:
+                        arms.append((fac[0].id, st))
+    if len(arms) < 2:
+        return [inconclusive("F-exp-split", key, f.relpath, f.node.lineno, f.qualname, "the two arms `factor == n` that move the constant into the base were not recognised")]
+    names = {a for a, _ in arms}
+    obs = []
+    bad = None
+    for tested, st in arms:
+        others = names - {tested}
+        e = st.value.right
+        if not (isinstance(e, ast.Name) and e.id in others):
+            bad = (tested, st)
+    if bad:
+        tested, st = bad
+        return [Ob("F-exp-split", key, f.relpath, st.lineno, f.qualname, False,
+                   f"`{src(st)}` in the arm `{tested} == n`: base**(C*n) is (base**C)**n, the new base is the old base to the power of the OTHER factor, unchanged "
+                   "(2**(n/2) is sqrt(2)**n, not 4**n): the lattice is computed for the wrong bases")]
+    return [Ob("F-exp-split", key, f.relpath, arms[0][1].lineno, f.qualname, True, "base**(C*n) is read as (base**C)**n in both orders of the factors")]
+
+
+def mut_exp_split(repo: Repo) -> List[Mutant]:
+    ov = text_mutant(repo, "invariants/invariant_ideal.py", "base = base ** factor1", "base = base ** (1 / factor1)")
+    return [Mutant("reciprocal-constant-into-the-base", ov, "fire", "constant-into-base", control=True)] if ov else []
+
+
+# ------------------------------------------------------------------ integer kernel: the whole left block is eliminated
+def rule_kernel_columns(repo: Repo) -> List[Ob]:
+    """_integer_kernel works on [matrix^T | I]: the left block has one column per equation.  The width used to BUILD the left block, the
+    range of the ELIMINATION loop and the offset at which the right block is CUT OFF are the same number; an elimination that stops
+    earlier leaves equations unenforced and vectors that are no relations end up in the basis."""
+    f = repo.function("invariants/exponent_lattice.py", "ExponentLattice._integer_kernel")
+    key = "invariants/exponent_lattice.py::ExponentLattice._integer_kernel::left-block-width"
+    from ..ratfun import Normalizer
+    nz = Normalizer()
+    build = elim = cut = None
+    for n in walk_no_nested(f.node):
+        if isinstance(n, ast.ListComp) and isinstance(n.elt, ast.Call) and call_name(n.elt) == "int" and len(n.generators) == 1 and isinstance(n.generators[0].iter, ast.Call) \
+                and call_name(n.generators[0].iter) == "range" and len(n.generators[0].iter.args) == 1 and any(isinstance(x, ast.Subscript) for x in ast.walk(n.elt)) and build is None:
+            build = n.generators[0].iter.args[0]
+        if isinstance(n, ast.For) and isinstance(n.target, ast.Name) and isinstance(n.iter, ast.Call) and call_name(n.iter) == "range" and len(n.iter.args) == 1 \
+                and any(isinstance(x, ast.Subscript) and isinstance(x.slice, ast.Name) and x.slice.id == n.target.id and isinstance(x.value, ast.Subscript) for x in ast.walk(n)) and elim is None:
+            elim = n.iter.args[0]
+        if isinstance(n, ast.Subscript) and isinstance(n.slice, ast.Slice) and n.slice.lower is not None and n.slice.upper is not None and isinstance(n.value, ast.Name) and cut is None:
+            cut = n.slice.lower
+    if build is None or elim is None or cut is None:
+        return [inconclusive("F-kernel", key, f.relpath, f.node.lineno, f.qualname, "construction / elimination / cut of the left block not recognised")]
+    try:
+        b_, e_, c_ = nz(build), nz(elim), nz(cut)
+    except AnalysisError as ex:
+        return [inconclusive("F-kernel", key, f.relpath, f.node.lineno, f.qualname, f"width expressions not normalisable ({ex})")]
+    if b_.equiv(e_) and b_.equiv(c_):
+        return [Ob("F-kernel", key, f.relpath, elim.lineno, f.qualname, True, f"left block: built with width `{src(build)}`, eliminated over the same range, right block cut off at the same offset")]
+    which = f"the elimination loop runs over range({src(elim)})" if not b_.equiv(e_) else f"the right block is cut off at {src(cut)}"
+    return [Ob("F-kernel", key, f.relpath, elim.lineno, f.qualname, False,
+               f"the left block is built with width `{src(build)}` but {which}: equations beyond that are never enforced, vectors that are no relations (even 0) end up in the lattice basis")]
+
+
+def mut_kernel_columns(repo: Repo) -> List[Mutant]:
+    ov = text_mutant(repo, "invariants/exponent_lattice.py", "for col in range(num_equations):", "for col in range(min(num_equations, num_columns)):")
+    return [Mutant("elimination-stops-at-the-number-of-rows", ov, "fire", "left-block-width", control=True)] if ov else []
+
+
 RULES = {
+    "KERNELCOLS": Rule("F-kernel", rule_kernel_columns, 1, "the integer-kernel elimination covers the whole left block (build width = elimination range = cut offset)", mut_kernel_columns, soft=True),
+    "ROWINTACT": Rule("F-lattice-rows", rule_row_intact, 1, "lattice vectors are turned into binomials with their own exponents (never rescaled)", mut_row_intact, soft=True),
+    "EXPSPLIT": Rule("F-exp-split", rule_exp_split, 1, "base**(C*n) is abstracted as (base**C)**n", mut_exp_split, soft=True),
     "ALIAS": Rule("G4-aliasing", rule_aliasing, 1, "rows handed out per key (setdefault / fromkeys / list multiplication) are distinct objects when they are written through; one multiplicity row per factor", mut_aliasing, soft=True),
     "TRIVIAL": Rule("F-trivial-lattice", rule_trivial_shortcut, 1, "the `trivially empty lattice` shortcut is guarded by: all bases rational", mut_trivial_shortcut, soft=True),
     "DEADGUARD": Rule("M-dead-guard", rule_dead_guard, 1, "a container emptied at the start of a method and tested for emptiness later can be filled in between (the saturation of the lattice ideal is reachable)", mut_dead_guard, soft=True),
